@@ -30,6 +30,82 @@ pub struct AuthUrlCase {
     /// seed of the ORDER in which the builder methods are called (the URL must not depend on it)
     #[serde(default)]
     pub order: u64,
+    /// free-form sequence of builder calls (any length, repetitions, any interleaving); when absent the calls are
+    /// derived from the fields above, shuffled by `order`
+    #[serde(default)]
+    pub calls: Option<Vec<BOp>>,
+}
+
+/// one call of an `AuthorizationRequest` builder method
+#[derive(Clone, Debug, Serialize, Deserialize, PartialEq)]
+pub enum BOp {
+    Implicit,
+    RespType(String),
+    /// 1 = S256 of the verifier, 2 = plain
+    Pkce(u8, String),
+    Redirect(String),
+    Scope(String),
+    Scopes(Vec<String>),
+    Extra(String, String),
+}
+
+fn make_challenge(method: u8, verifier: &str) -> PkceCodeChallenge {
+    if method == 2 {
+        PkceCodeChallenge::from_code_verifier_plain(&PkceCodeVerifier::new(verifier.to_string()))
+    } else {
+        PkceCodeChallenge::from_code_verifier_sha256(&PkceCodeVerifier::new(verifier.to_string()))
+    }
+}
+
+impl AuthUrlCase {
+    /// the builder calls of this case, in call order
+    pub fn ops(&self) -> Vec<BOp> {
+        if let Some(c) = &self.calls {
+            return c.clone();
+        }
+        let mut steps = vec![0u8, 1, 2, 3, 4];
+        let mut o = crate::gen::Rng::new(self.order);
+        for i in (1..steps.len()).rev() {
+            let j = o.below(i as u64 + 1) as usize;
+            steps.swap(i, j);
+        }
+        let mut v = Vec::new();
+        for st in steps {
+            match st {
+                0 => match self.rt {
+                    1 => v.push(BOp::Implicit),
+                    2 => v.push(BOp::RespType(self.custom_rt.clone())),
+                    _ => {}
+                },
+                1 => {
+                    if self.pkce == 1 || self.pkce == 2 {
+                        v.push(BOp::Pkce(self.pkce, self.verifier.clone()));
+                    }
+                }
+                2 => {
+                    if let Some(o) = &self.override_redirect {
+                        v.push(BOp::Redirect(o.clone()));
+                    }
+                }
+                3 => {
+                    if self.scopes.len() >= 2 {
+                        v.push(BOp::Scope(self.scopes[0].clone()));
+                        v.push(BOp::Scopes(self.scopes[1..].to_vec()));
+                    } else {
+                        for s in &self.scopes {
+                            v.push(BOp::Scope(s.clone()));
+                        }
+                    }
+                }
+                _ => {
+                    for (k, val) in &self.extras {
+                        v.push(BOp::Extra(k.clone(), val.clone()));
+                    }
+                }
+            }
+        }
+        v
+    }
 }
 
 pub const AUTH_ENDPOINTS: &[&str] = &[
@@ -72,6 +148,31 @@ impl CaseInput for AuthUrlCase {
         if r.chance(1, 6) {
             endpoint = gen::endpoint(r, false);
         }
+        // half of the cases: a free-form call sequence (repeated setters, scopes and extras interleaved with them)
+        let calls = if r.chance(1, 2) {
+            let n = r.below(11);
+            Some(
+                (0..n)
+                    .map(|_| match r.below(12) {
+                        0 => BOp::Implicit,
+                        1 => BOp::RespType(if r.chance(1, 2) { r.pick(&["code id_token", "token", "code", "id_token token"]).to_string() } else { gen::hostile_s(r) }),
+                        2 | 3 => {
+                            let m = 1 + r.below(2) as u8;
+                            BOp::Pkce(m, legal_verifier(r, m == 2))
+                        }
+                        4 => BOp::Redirect(gen::redirect_text(r)),
+                        5 | 6 => BOp::Scope(if r.chance(1, 6) { String::new() } else { gen::mixed(r) }),
+                        7 => BOp::Scopes((0..r.below(4)).map(|_| if r.chance(1, 6) { String::new() } else { gen::mixed(r) }).collect()),
+                        _ => {
+                            let k = if r.chance(1, 3) { r.pick(&["state", "client_id", "scope", "redirect_uri", "response_type", "resource", "resource"]).to_string() } else { gen::mixed(r) };
+                            BOp::Extra(k, gen::hostile_s(r))
+                        }
+                    })
+                    .collect(),
+            )
+        } else {
+            None
+        };
         let pkce = r.below(3) as u8;
         let nsc = *r.pick(&[0u64, 0, 1, 1, 2, 3]);
         let nex = *r.pick(&[0u64, 0, 1, 2, 4]);
@@ -94,6 +195,7 @@ impl CaseInput for AuthUrlCase {
             state: gen::hostile_s(r),
             noise: r.chance(1, 2),
             order: r.below(1 << 20),
+            calls,
         }
     }
 
@@ -123,53 +225,54 @@ impl CaseInput for AuthUrlCase {
             plain = client;
             plain.authorize_url(state_fn)
         };
-        let custom = ResponseType::new(self.custom_rt.clone());
-        let challenge = match self.pkce {
-            1 => Some(PkceCodeChallenge::from_code_verifier_sha256(&PkceCodeVerifier::new(self.verifier.clone()))),
-            2 => Some(PkceCodeChallenge::from_code_verifier_plain(&PkceCodeVerifier::new(self.verifier.clone()))),
-            _ => None,
-        };
-        let ch_pair = challenge.as_ref().map(|c| (c.as_str().to_string(), c.method().as_str().to_string()));
-        let mut challenge = challenge;
-        // the builder methods are called in a case-specific order: a method that clobbers what another one set
+        // the builder methods are called in the case's order: a method that clobbers what another one set
         // (e.g. use_implicit_flow resetting the PKCE challenge) shows up under some order
-        let mut steps = vec![0u8, 1, 2, 3, 4];
-        let mut o = crate::gen::Rng::new(self.order);
-        for i in (1..steps.len()).rev() {
-            let j = o.below(i as u64 + 1) as usize;
-            steps.swap(i, j);
-        }
-        for st in steps {
-            match st {
-                0 => match self.rt {
-                    1 => rq = rq.use_implicit_flow(),
-                    2 => rq = rq.set_response_type(&custom),
-                    _ => {}
-                },
-                1 => {
-                    if let Some(c) = challenge.take() {
-                        rq = rq.set_pkce_challenge(c);
-                    }
+        let ops = self.ops();
+        // what the calls mean, computed here independently of the model: last response type / challenge / redirect
+        // call wins, scopes and extras accumulate in call order
+        let mut rt = "code".to_string();
+        let mut ch_pair: Option<(String, String)> = None;
+        let mut override_redirect: Option<String> = None;
+        let mut scopes: Vec<String> = Vec::new();
+        let mut extras: Vec<(String, String)> = Vec::new();
+        let mut optoks: Vec<String> = vec![ops.len().to_string()];
+        for op in &ops {
+            match op {
+                BOp::Implicit => {
+                    rq = rq.use_implicit_flow();
+                    rt = "token".into();
+                    optoks.push("I".into());
                 }
-                2 => {
-                    if let Some(o) = &self.override_redirect {
-                        rq = rq.set_redirect_uri(Cow::Owned(RedirectUrl::new(o.clone()).unwrap()));
-                    }
+                BOp::RespType(v) => {
+                    rq = rq.set_response_type(&ResponseType::new(v.clone()));
+                    rt = v.clone();
+                    optoks.push(format!("R {}", hs(v)));
                 }
-                3 => {
-                    if self.scopes.len() >= 2 {
-                        rq = rq.add_scope(Scope::new(self.scopes[0].clone()));
-                        rq = rq.add_scopes(self.scopes[1..].iter().map(|s| Scope::new(s.clone())));
-                    } else {
-                        for s in &self.scopes {
-                            rq = rq.add_scope(Scope::new(s.clone()));
-                        }
-                    }
+                BOp::Pkce(m, v) => {
+                    let c = make_challenge(*m, v);
+                    ch_pair = Some((c.as_str().to_string(), c.method().as_str().to_string()));
+                    optoks.push(format!("P {} {}", hs(c.as_str()), hs(c.method().as_str())));
+                    rq = rq.set_pkce_challenge(c);
                 }
-                _ => {
-                    for (k, v) in &self.extras {
-                        rq = rq.add_extra_param(k.clone(), v.clone());
-                    }
+                BOp::Redirect(o) => {
+                    rq = rq.set_redirect_uri(Cow::Owned(RedirectUrl::new(o.clone()).unwrap()));
+                    override_redirect = Some(o.clone());
+                    optoks.push(format!("D {}", hs(o)));
+                }
+                BOp::Scope(s) => {
+                    rq = rq.add_scope(Scope::new(s.clone()));
+                    scopes.push(s.clone());
+                    optoks.push(format!("S {}", hs(s)));
+                }
+                BOp::Scopes(ss) => {
+                    rq = rq.add_scopes(ss.iter().map(|s| Scope::new(s.clone())));
+                    scopes.extend(ss.iter().cloned());
+                    optoks.push(format!("M {}", hlist(ss)));
+                }
+                BOp::Extra(k, v) => {
+                    rq = rq.add_extra_param(k.clone(), v.clone());
+                    extras.push((k.clone(), v.clone()));
+                    optoks.push(format!("X {} {}", hs(k), hs(v)));
                 }
             }
         }
@@ -182,11 +285,6 @@ impl CaseInput for AuthUrlCase {
         let old: Vec<(String, String)> = canon.query_pairs().map(|(k, v)| (k.into_owned(), v.into_owned())).collect();
         let mut want = old.clone();
         let p = |k: &str, v: &str| (k.to_string(), v.to_string());
-        let rt = match self.rt {
-            1 => "token".to_string(),
-            2 => self.custom_rt.clone(),
-            _ => "code".to_string(),
-        };
         want.push(p("response_type", &rt));
         want.push(p("client_id", &self.id));
         want.push(p("state", &first_state));
@@ -194,14 +292,14 @@ impl CaseInput for AuthUrlCase {
             want.push(p("code_challenge", c));
             want.push(p("code_challenge_method", m));
         }
-        if let Some(rd) = self.override_redirect.as_ref().or(self.client_redirect.as_ref()) {
+        if let Some(rd) = override_redirect.as_ref().or(self.client_redirect.as_ref()) {
             want.push(p("redirect_uri", rd));
         }
-        let joined = self.scopes.join(" ");
+        let joined = scopes.join(" ");
         if !joined.is_empty() {
             want.push(p("scope", &joined));
         }
-        want.extend(self.extras.iter().cloned());
+        want.extend(extras.iter().cloned());
         if got != want {
             oracle.push(("C03:pairs".into(), format!("decoded {got:?}, intended {want:?}")));
         }
@@ -227,27 +325,45 @@ impl CaseInput for AuthUrlCase {
         }
 
         let line = format!(
-            "authurl {} {} {} {} {} {} {} {} {} {} {} | {} {} {}",
+            "authurl {} {} {} {} {} | {} {} {}",
             hs(canon.as_str()),
             hs(&self.id),
-            self.rt,
-            if self.rt == 2 { hs(&self.custom_rt) } else { "n".into() },
-            hopt(ch_pair.as_ref().map(|x| x.0.as_str())),
-            hopt(ch_pair.as_ref().map(|x| x.1.as_str())),
             hopt(self.client_redirect.as_deref()),
-            hopt(self.override_redirect.as_deref()),
-            hlist(&self.scopes),
-            hpairs(&self.extras),
+            optoks.join(" "),
             hs(&first_state),
             hs(url.as_str()),
             hs(token.secret()),
             calls.get()
         );
-        Exec { line, oracle, class: format!("rt{}-pkce{}", self.rt, self.pkce) }
+        let rtc = if rt == "code" { 0 } else if rt == "token" { 1 } else { 2 };
+        Exec { line, oracle, class: format!("rt{}-pkce{}-{}", rtc, ch_pair.is_some() as u8, if self.calls.is_some() { "free" } else { "shuffled" }) }
     }
 
     fn shrinks(&self) -> Vec<Self> {
         let mut v = Vec::new();
+        if let Some(cs) = &self.calls {
+            for i in 0..cs.len() {
+                let mut c = self.clone();
+                c.calls.as_mut().unwrap().remove(i);
+                v.push(c);
+            }
+            for i in 0..cs.len() {
+                let mut c = self.clone();
+                let slot = &mut c.calls.as_mut().unwrap()[i];
+                let smaller: Vec<BOp> = match slot.clone() {
+                    BOp::RespType(x) => shrink_string(&x).into_iter().map(BOp::RespType).collect(),
+                    BOp::Scope(x) => shrink_string(&x).into_iter().map(BOp::Scope).collect(),
+                    BOp::Scopes(xs) => (0..xs.len()).map(|j| { let mut y = xs.clone(); y.remove(j); BOp::Scopes(y) }).collect(),
+                    BOp::Extra(k, x) => shrink_string(&x).into_iter().map(|y| BOp::Extra(k.clone(), y)).chain(shrink_string(&k).into_iter().map(|y| BOp::Extra(y, x.clone()))).collect(),
+                    _ => vec![],
+                };
+                for s in smaller {
+                    let mut d = self.clone();
+                    d.calls.as_mut().unwrap()[i] = s;
+                    v.push(d);
+                }
+            }
+        }
         for i in 0..self.extras.len() {
             let mut c = self.clone();
             c.extras.remove(i);
